@@ -37,7 +37,7 @@ ASSUMPTIONS = [
     "the peer's messages are template messages allowed over UDP; the session manager is a stub (no HTTP)",
     "retry budget is the default 10 in half of the runs and 3 in the others",
 ]
-MUST_REACH = {"acks_riding_on_retransmissions": 30, "regions_registered_again_at_the_same_address": 10, "refused_sends_before_good_ones": 30, "packetacks_with_only_appended_acks": 30, "reliable_arrivals": 1000, "duplicate_arrivals": 200, "unreliable_arrivals": 500, "acks_sent_checked": 1000,
+MUST_REACH = {"sequences_with_a_first_subscriber_raising_cancelled": 20, "acks_riding_on_retransmissions": 30, "regions_registered_again_at_the_same_address": 10, "refused_sends_before_good_ones": 30, "packetacks_with_only_appended_acks": 30, "reliable_arrivals": 1000, "duplicate_arrivals": 200, "unreliable_arrivals": 500, "acks_sent_checked": 1000,
               "sends_completed_by_appended_ack": 50, "sends_completed_by_packetack": 50, "budgets_exhausted": 5,
               "region_level_duplicates_checked": 100, "reordered_first_arrivals": 100, "session_level_duplicates_checked": 100, "ids_checked_increasing": 1000, "long_circuit_retransmissions": 100, "sends_of_prenumbered_messages": 50, "sequences_with_fractional_resend_interval": 10}
 
@@ -110,10 +110,25 @@ def _run_sequence(ctx, rng, seed, reuse=None):
                 calls[key] = calls.get(key, 0) + 1
         return sub
 
-    session.message_handler.subscribe("CompletePingCheck", mk_sub("session", "named"))
-    session.message_handler.subscribe("*", mk_sub("session", "wildcard"))
-    region.message_handler.subscribe("CompletePingCheck", mk_sub("region", "named"))
-    region.message_handler.subscribe("*", mk_sub("region", "wildcard"))
+    # subscribers come in more than one way: by name, by wildcard, and through the notifier object register() hands out (taken
+    # while nobody has subscribed yet, used after the others have). In every other sequence the first subscriber of each level is
+    # a sour one: it fails on every message - with an ordinary exception, or with the CancelledError that asking a cancelled
+    # future for its result raises - which is its own problem and nobody else's.
+    import asyncio as _asyncio
+    sour_exc = [None, RuntimeError, None, _asyncio.CancelledError][seed % 4]
+    kinds = ["named", "wildcard", "handle"]
+    for level, handler in (("session", session.message_handler), ("region", region.message_handler)):
+        handle = handler.register("CompletePingCheck")
+        if sour_exc is not None:
+            def sour(msg, _exc=sour_exc):
+                raise _exc("sour subscriber")
+            handler.subscribe("CompletePingCheck", sour)
+            ctx.count("sequences_with_a_failing_first_subscriber")
+            if sour_exc is _asyncio.CancelledError:
+                ctx.count("sequences_with_a_first_subscriber_raising_cancelled")
+        handler.subscribe("CompletePingCheck", mk_sub(level, "named"))
+        handler.subscribe("*", mk_sub(level, "wildcard"))
+        handle.subscribe(mk_sub(level, "handle"))
     arrivals = {}            # packet id -> number of arrivals (reliable)
     unrel_arrivals = {}
     next_peer_id = 1
@@ -156,8 +171,10 @@ def _run_sequence(ctx, rng, seed, reuse=None):
         data = bytes(_ser.serialize(msg))
         try:
             protocol.datagram_received(data, SIM)
-        except Exception as e:
-            ctx.violation("datagram-received-raised", "the client's datagram handler raised on a valid datagram",
+        except (KeyboardInterrupt, SystemExit):
+            raise
+        except BaseException as e:      # (a subscriber's CancelledError is a BaseException)
+            ctx.violation("datagram-received-raised:" + type(e).__name__, "the client's datagram handler raised on a valid datagram",
                           dict(wit_base, exc=repr(e)[:300], history_tail=history[-6:]))
 
     def peer_packet(pid, reliable, resent, acks=(), blocks=None):
@@ -365,7 +382,7 @@ def _run_sequence(ctx, rng, seed, reuse=None):
     # dispatch counts
     for pid, n in arrivals.items():
         for level in ("session", "region"):
-            for kind in ("named", "wildcard"):
+            for kind in kinds:
                 c = calls.get((level, kind, pid, True), 0)
                 if n > 1:
                     ctx.count(f"{level}_level_duplicates_checked")
@@ -377,7 +394,7 @@ def _run_sequence(ctx, rng, seed, reuse=None):
                     ctx.nontrivial(("rel", n > 1, level, kind))
     for pid, n in unrel_arrivals.items():
         for level in ("session", "region"):
-            for kind in ("named", "wildcard"):
+            for kind in kinds:
                 c = calls.get((level, kind, pid, False), 0)
                 if c != n:
                     ctx.violation(f"unreliable-dispatch-count:{level}:{kind}", "an unreliable packet was not delivered on every arrival",
